@@ -565,6 +565,15 @@ class Engine:
         m = re.fullmatch(r"\{(alloc\d+): (.*)\}", t)
         if m:
             return Ref(("S", m.group(1)))
+        m = re.fullmatch(r"<static\(DefId\([^~]*~ [^:]*::(?:.*::)?([A-Za-z_0-9]+)\)\)>", t)
+        if m and m.group(1) in self.statics:
+            return Ref(("S", m.group(1)))
+        m = re.search(r"([A-Za-z_0-9]+)::promoted\[(\d+)\]$", t)
+        if m:
+            rhs = mirparse.PROMOTED.get("%s::promoted[%s]" % (m.group(1), m.group(2)))
+            if rhs is not None:
+                inner = rhs[6:] if rhs.startswith("const ") else rhs
+                return Ref(("V", self.const(inner)))
         m = re.fullmatch(r'b?"(.*)"', t, flags=re.S)
         if m:
             return Opaque("strlit", t, {"lit": unescape(m.group(1))})
